@@ -565,10 +565,6 @@ func cmEq(a, b []string) bool {
 }
 
 func CommentsProperty(impl CmImpl) Property {
-	variant := "v1"
-	if impl.V2 {
-		variant = "v2"
-	}
 	exec := func(lines []string) ([]string, []Failure) {
 		outs := make([]string, len(lines))
 		for i := range outs {
